@@ -9,7 +9,7 @@ from sa.formula import Formula, Unrecognised
 from sa.paths import Path, U, strip_v
 from sa.report import Ctx
 from rules import generic as G
-from rules.common import flatten_check, S, appends, enum_paths, fact_where, find_calls, label_source, loops_of
+from rules.common import label_ok, flatten_check, S, appends, enum_paths, fact_where, find_calls, label_source, loops_of
 
 EXPLANATION = (
     "Decides: (1) ranking – the list handed to Ap._calculate_tp_fp is ordered by one stable sort whose key is the estimate's "
@@ -160,8 +160,9 @@ def rule_marking(ctx: Ctx) -> None:
             ctx.check(ok, "C04-marking", "Ap._calculate_tp_fp", "fp", f"an incorrect result stores `{tgt} = {S(e.value)}`; it must store fp_list[i] = 1.0", fi=fi)
         for c in find_calls(bp, "get_label_threshold"):
             a = c.kwargs.get("semantic_label") or (c.args[0] if c.args else None)
-            src = label_source(a, rvar) if a is not None else "none"
-            ctx.check(src == "gt-else-est", "R-THRLABEL", "Ap._calculate_tp_fp", "matching-threshold",
+            ok_l, src = label_ok(ctx, bp, a, rvar) if a is not None else (False, "none")
+            ctx.require(ok_l is not None, f"Ap._calculate_tp_fp: the label used for the threshold look-up (`{S(a)[:80]}`) is not recognised")
+            ctx.check(ok_l, "R-THRLABEL", "Ap._calculate_tp_fp", "matching-threshold",
                       f"the threshold is looked up with `{S(a) if a is not None else None}` ({src}); it must be the ground truth's label (the estimate's only without ground truth)", fi=fi)
         for c in [x for x in bp.effects if x.kind in ("call", "ccall") and x.name == "is_result_correct"]:
             mm = c.kwargs.get("matching_mode") or (c.args[0] if c.args else None)
@@ -255,6 +256,8 @@ def rule_formulas(ctx: Ctx) -> None:
         if p.facts.get("truthy:precision_list") is False:
             ctx.check(p.retval is not None and S(p.retval) in ("0.0", "0"), "C04-formula", "_calculate_ap", "empty", "AP of an empty ranking must be 0", fi=fa)
             continue
+        if p.exit and p.exit[0] == "raise" and p.exit[1] == "AssertionError":
+            continue  # a defensive assertion added before the loop
         lps = [e for e in p.effects if e.kind == "loop"]
         ctx.require(len(lps) == 1, "_calculate_ap: expected one accumulation loop")
         lp = lps[0]
@@ -390,6 +393,13 @@ def rule_map(ctx: Ctx) -> None:
         "matching_threshold_list": f"[{tvar}]",
     }
     saw_aph = False
+    params = {a.arg for a in fi.params()}
+    self_alias = {}
+    for pp in paths[:1]:
+        idx_lp = next((i for i, e in enumerate(pp.effects) if e.kind == "loop"), len(pp.effects))
+        for e in pp.effects[:idx_lp]:
+            if e.kind == "store" and S(e.recv).startswith("self.") and S(e.value) in params:
+                self_alias[S(e.recv)] = S(e.value)
     for bp in lp.body:
         aps = [e for e in bp.effects if e.kind == "call" and e.name == "Ap"]
         ctx.require(len(aps) >= 1, "Map.__init__: Ap(...) not constructed in the per-label loop")
@@ -398,6 +408,8 @@ def rule_map(ctx: Ctx) -> None:
             saw_aph = saw_aph or kind == "TPMetricsAph()"
             for k, w in want.items():
                 got = c.kwargs.get(k)
+                if got is not None and S(got).startswith("self.") and S(got) in self_alias:
+                    got = ast.parse(self_alias[S(got)], mode="eval").body  # self.x was assigned from the parameter before the loop: the same value
                 ctx.check(got is not None and S(got) == w, "C04-map", "Map.__init__", f"{kind}:{k}",
                           f"Ap({kind}) receives {k}=`{S(got) if got is not None else None}`; it must be `{w}` so that label, threshold, results and ground-truth count line up", fi=fi,
                           expected=w, found=S(got) if got is not None else "None")
